@@ -8,7 +8,8 @@ From Aelys Require Import Extracted.ValueConsts Extracted.Opcodes Model.Value Mo
 From Aelys Require Import Base.Tactics Model.Lang Model.Eval Extracted.OptConsts Model.Opt.Fold
   Model.PureEval Proofs.EvalProofs Proofs.FoldProofs Proofs.PureProofs Proofs.EvalMono Proofs.FoldEvalProofs
   Proofs.ValueMap Proofs.FoldSim Proofs.FoldSimExpr Model.Opt.Dce Proofs.DceEval Proofs.DceSim Proofs.DceSim2
-  Model.Opt.Unused Proofs.UnusedProofs Model.Opt.GlobalProp Proofs.GlobalPropProofs.
+  Model.Opt.Unused Proofs.UnusedProofs Model.Opt.GlobalProp Proofs.GlobalPropProofs
+  Model.Opt.LocalProp Proofs.LocalPropProofs.
 Local Open Scope Z_scope.
 
 (* whenever the folder replaces `a op b` by a literal, that literal is exactly the value the
@@ -380,6 +381,80 @@ Example C01_gprop_nonvacuous :
   /\ nth_error (gprop_program true p) 1 = nth_error p 1
   /\ nth_error (gprop_program true p) 7 = nth_error p 7
   /\ nth_error (gprop_program true p) 4 = nth_error (gprop_program false p) 4.
+Proof. vm_compute. repeat split; reflexivity. Qed.
+
+(* ------------------------------------------------------------------ local constant propagation *)
+(* Model/Opt/LocalProp.v transcribes opt/src/passes/local_const_prop (propagator.rs, scope.rs); on
+   every run the tie checks that the model produces exactly the real pass's output (whole programs
+   and session units, on the AST with redundant parentheses removed).  The theorems are the
+   algebra of the scope stack the pass's scoping argument rests on - every binder hides, every
+   assignment kills, a closed scope leaves nothing behind, session bodies ignore the top level -
+   and the `let` rule (only literals of immutable lets are recorded; a top-level name bound
+   anywhere else in the program is not). *)
+Theorem C01_lprop_binder_hides : forall x v ss, ss_get x (ss_put x v ss) = v.
+Proof. exact ss_get_put_same. Qed.
+Theorem C01_lprop_binder_touches_no_other_name : forall x y v ss,
+  x <> y -> ss <> [] -> ss_get x (ss_put y v ss) = ss_get x ss.
+Proof. exact ss_get_put_other. Qed.
+Theorem C01_lprop_assignment_kills : forall x ss, ss_get x (ss_inval x ss) = None.
+Proof. exact ss_get_inval_same. Qed.
+Theorem C01_lprop_assignment_touches_no_other_name : forall x y ss,
+  x <> y -> ss_get x (ss_inval y ss) = ss_get x ss.
+Proof. exact ss_get_inval_other. Qed.
+Theorem C01_lprop_scope_closes : forall x v ss, ss <> [] -> ss_pop (ss_put x v (ss_push ss)) = ss.
+Proof. exact ss_pop_put_push. Qed.
+Theorem C01_lprop_session_body_ignores_top_level : forall x (top : scope), known true true [top] x = None.
+Proof. exact session_body_ignores_top_level. Qed.
+Theorem C01_lprop_let_records_only_literals : forall open bs d ss x m e s' ss',
+  lp_stmt open bs d ss (SLet x m e) = (s', ss') ->
+  forall k, ss_get x ss' = Some k -> is_simple_constant k = true /\ m = false.
+Proof. exact let_records_only_literals. Qed.
+Theorem C01_lprop_rebindable_global_not_recorded : forall open bs d (top : scope) x m e s' ss',
+  lp_stmt open bs d [top] (SLet x m e) = (s', ss') ->
+  length (snd (lp_expr open bs d [top] e)) = 1%nat ->
+  bound_once bs x = false -> ss_get x ss' = None.
+Proof. exact rebindable_global_not_recorded. Qed.
+
+(* PARTIAL: the whole-program preservation statement for this pass is not proved (per-program
+   validation covers it).  Non-vacuity (inside a function body): propagation into later uses and
+   into a loop bound, a folded initializer becomes a constant, a loop variable / lambda parameter /
+   inner non-constant let of the same name each stop it, an assignment in a loop body kills the
+   constant before the loop, a block-local constant is used inside its block; at top level: a name
+   bound twice is no constant, a name bound once is and reaches a function body - except in a
+   session unit, where the function body keeps the name and the top-level use does not. *)
+Example C01_lprop_nonvacuous :
+  let p := [SFun "h" [("z"%string, false)]
+              [SLet "a" false (EInt 2);
+               SLet "b" false (EBin BAdd (EVar "a") (EInt 3));
+               SExpr (ECall (EVar "println") [EVar "b"; EVar "z"]);
+               SFor "b" (EInt 0) (EVar "a") false None (SBlock [SExpr (ECall (EVar "print") [EVar "b"; EVar "a"])]);
+               SLet "g" false (ELam [("b"%string, false)] [SLet "a" false (ECall (EVar "z") [EInt 1]); SRet (Some (EBin BAdd (EVar "a") (EVar "b")))]);
+               SBlock [SLet "c" false (EInt 7); SExpr (ECall (EVar "println") [EVar "c"])];
+               SLet "m" false (EInt 1);
+               SWhile (EBin BLt (EVar "m") (EInt 3)) (SBlock [SExpr (EAssign "m" (EBin BAdd (EVar "m") (EInt 1)))]);
+               SRet (Some (EBin BAdd (EVar "b") (EVar "m")))] [];
+            SLet "t" false (EInt 1); SLet "t" false (EInt 2);
+            SLet "k" false (EInt 9);
+            SFun "q" [] [SRet (Some (EVar "k"))] [];
+            SExpr (ECall (EVar "println") [EVar "t"; EVar "k"])] in
+  lprop_program false p =
+           [SFun "h" [("z"%string, false)]
+              [SLet "a" false (EInt 2);
+               SLet "b" false (EInt 5);
+               SExpr (ECall (EVar "println") [EInt 5; EVar "z"]);
+               SFor "b" (EInt 0) (EInt 2) false None (SBlock [SExpr (ECall (EVar "print") [EVar "b"; EInt 2])]);
+               SLet "g" false (ELam [("b"%string, false)] [SLet "a" false (ECall (EVar "z") [EInt 1]); SRet (Some (EBin BAdd (EVar "a") (EVar "b")))]);
+               SBlock [SLet "c" false (EInt 7); SExpr (ECall (EVar "println") [EInt 7])];
+               SLet "m" false (EInt 1);
+               SWhile (EBin BLt (EVar "m") (EInt 3)) (SBlock [SExpr (EAssign "m" (EBin BAdd (EVar "m") (EInt 1)))]);
+               SRet (Some (EBin BAdd (EInt 5) (EVar "m")))] [];
+            SLet "t" false (EInt 1); SLet "t" false (EInt 2);
+            SLet "k" false (EInt 9);
+            SFun "q" [] [SRet (Some (EInt 9))] [];
+            SExpr (ECall (EVar "println") [EVar "t"; EInt 9])]
+  /\ nth_error (lprop_program true p) 4 = nth_error p 4
+  /\ nth_error (lprop_program true p) 0 = nth_error (lprop_program false p) 0
+  /\ nth_error (lprop_program true p) 5 = nth_error (lprop_program false p) 5.
 Proof. vm_compute. repeat split; reflexivity. Qed.
 
 (* constant propagation kernel: replacing variables by the literals they are bound to is
